@@ -317,6 +317,7 @@ fn strategy() -> BoxedStrategy<Case> {
         prop_oneof![
             4 => prop::collection::vec(small(), 0..=64),
             1 => prop::collection::vec(small(), 0..=3),
+            1 => prop::collection::vec(-4i64..=4, 200..=1200),
             1 => proptest::sample::select(EDGES.to_vec()).prop_map(|e| vec![e]),
         ]
     };
@@ -333,7 +334,7 @@ fn strategy() -> BoxedStrategy<Case> {
 }
 
 pub fn run(ctx: &mut Ctx) {
-    ctx.rule = "exhaustive: all 343 triples over {MIN, MIN+1, -1, 0, 1, MAX-1, MAX}; generated: value triples, pairs of result vectors (length 0..64, sums fit i64; incl. rotations with equal totals) in both polarities, each built through one of 12 sources (slice / Vec / typed results, and iterators with valid but imprecise size hints: filter, flat_map, from_fn, chain, take_while, custom hints) wrapped into individuals with different genomes, and IndividualGenerator / GenomeScorer runs with a recording scorer against the genome source run from an equal generator state. non-trivial = triples with >= 2 distinct values, vectors of length >= 2, genomes of length >= 2; distinct by JSON encoding".into();
+    ctx.rule = "exhaustive: all 343 triples over {MIN, MIN+1, -1, 0, 1, MAX-1, MAX}; generated: value triples, pairs of result vectors (length 0..64, occasionally 200..1200, sums fit i64; incl. rotations with equal totals) in both polarities, each built through one of 12 sources (slice / Vec / typed results, and iterators with valid but imprecise size hints: filter, flat_map, from_fn, chain, take_while, custom hints) wrapped into individuals with different genomes, and IndividualGenerator / GenomeScorer runs with a recording scorer against the genome source run from an equal generator state. non-trivial = triples with >= 2 distinct values, vectors of length >= 2, genomes of length >= 2; distinct by JSON encoding".into();
     ctx.assumptions.push("TestResults == (derived, structural) is not required to agree with its cmp; result vectors are generated so that their sum fits in i64".into());
     ctx.exhaustive = Some(true);
     ctx.extra.insert("exhaustive_scope".into(), serde_json::json!("all ordered triples over the 7 extreme values (343); the generated sub-check is not exhaustive"));
